@@ -62,7 +62,7 @@ def stop_set(fx):
     return st
 
 
-def view(fx, path, depth=6, extra_stop=(), threaded=True):
+def view(fx, path, depth=9, extra_stop=(), threaded=True):
     f = fx.fn(path)
     if f is None:
         return None
@@ -104,7 +104,7 @@ def roles(fx):
     return out
 
 
-def role_views(fx, depth=6):
+def role_views(fx, depth=9):
     k = ("rviews", id(fx), depth)
     if k in _cache:
         return _cache[k]
@@ -124,7 +124,7 @@ def _has_call(v, pred):
     return False
 
 
-def find_views(fx, pred, depth=6):
+def find_views(fx, pred, depth=9):
     return [(lab, v) for lab, v in role_views(fx, depth).items() if pred(v)]
 
 
